@@ -162,7 +162,11 @@ func c20Limits(mode string) *c20sdk.Component {
 				{Class: "negative", Present: true, N: -3, Provides: true, Value: f.def}}})
 		}
 		// environment: zero and negative have the documented meaning of the SpanLimits fields
-		s.Sources = append(s.Sources, c20sdk.Source{Kind: "env", Env: f.env, Alts: c20sdk.EnvAlts(7, 300, 1, "literal", "literal")})
+		// ... plus a value EQUAL to the default: an explicit signal-specific value must win over the
+		// generic variable even when it happens to be the default
+		envAlts := append(c20sdk.EnvAlts(7, 300, 1, "literal", "literal"),
+			c20sdk.Alt{Class: "valid(equal to the default)", Present: true, Env: fmt.Sprint(f.def), Provides: true, Value: int64(f.def)})
+		s.Sources = append(s.Sources, c20sdk.Source{Kind: "env", Env: f.env, Alts: envAlts})
 		if f.gen != "" {
 			s.Sources = append(s.Sources, c20sdk.Source{Kind: "generic-env", Env: f.gen, Alts: c20sdk.EnvAlts(5, 200, 1, "literal", "literal")})
 		}
